@@ -258,7 +258,7 @@ func (r *recFS) WriteFile(name string, data []byte, perm fs.FileMode) error {
 	return err
 }
 
-type recFile struct {
+type bpRecFile struct {
 	avfs.File
 	r *recFS
 }
@@ -267,41 +267,41 @@ func (r *recFS) wrapFile(f avfs.File, err error) avfs.File {
 	if err != nil {
 		return f
 	}
-	return &recFile{File: f, r: r}
+	return &bpRecFile{File: f, r: r}
 }
-func (f *recFile) Name() string {
+func (f *bpRecFile) Name() string {
 	s := f.File.Name()
 	f.r.add("f.Name", nil, nil, s)
 	return s
 }
-func (f *recFile) Chdir() error { err := f.File.Chdir(); f.r.add("f.Chdir", nil, err); return err }
-func (f *recFile) Chmod(m fs.FileMode) error {
+func (f *bpRecFile) Chdir() error { err := f.File.Chdir(); f.r.add("f.Chdir", nil, err); return err }
+func (f *bpRecFile) Chmod(m fs.FileMode) error {
 	err := f.File.Chmod(m)
 	f.r.add("f.Chmod", nil, err)
 	return err
 }
-func (f *recFile) Close() error { err := f.File.Close(); f.r.add("f.Close", nil, err); return err }
-func (f *recFile) Read(b []byte) (int, error) {
+func (f *bpRecFile) Close() error { err := f.File.Close(); f.r.add("f.Close", nil, err); return err }
+func (f *bpRecFile) Read(b []byte) (int, error) {
 	n, err := f.File.Read(b)
 	f.r.add("f.Read", nil, err)
 	return n, err
 }
-func (f *recFile) ReadDir(n int) ([]fs.DirEntry, error) {
+func (f *bpRecFile) ReadDir(n int) ([]fs.DirEntry, error) {
 	d, err := f.File.ReadDir(n)
 	f.r.add("f.ReadDir", nil, err)
 	return d, err
 }
-func (f *recFile) Readdirnames(n int) ([]string, error) {
+func (f *bpRecFile) Readdirnames(n int) ([]string, error) {
 	d, err := f.File.Readdirnames(n)
 	f.r.add("f.Readdirnames", nil, err)
 	return d, err
 }
-func (f *recFile) Stat() (fs.FileInfo, error) {
+func (f *bpRecFile) Stat() (fs.FileInfo, error) {
 	i, err := f.File.Stat()
 	f.r.add("f.Stat", nil, err)
 	return i, err
 }
-func (f *recFile) Write(b []byte) (int, error) {
+func (f *bpRecFile) Write(b []byte) (int, error) {
 	n, err := f.File.Write(b)
 	f.r.add("f.Write", nil, err)
 	return n, err
